@@ -10,8 +10,8 @@ D# = -7
 L& = 2147483647
 I% = -32768
 Q! = 2.5
-LPRINT "ab" ;
-LPRINT CR$
+PRINT "ab" ;
+PRINT "ab" ;
 PRINT , "|"
 LPRINT , "|"
 PRINT #1, , "|"
